@@ -6,14 +6,19 @@
 //	           and written to locktable.json: the JSON constant of
 //	           spec/LockDiscipline.tla
 //	footprint  which public methods park on the instance lock (static.go)
-//	watchdog   every public method returns and leaves the lock free (static.go)
+//	watchdog   every public method, in every state its helper paths depend on,
+//	           returns and leaves the lock free (static.go)
 //	lin        concurrent invocation/response histories of point operations
-//	           (conc.go), judged by Trace_Linearize
+//	           (conc.go: shapes mix / duel / grow / block), judged by
+//	           Trace_Linearize; args types=A+B,ops=m1+m2,cases=n direct the
+//	           generator at the point operations TLC found to be made of
+//	           several critical sections
 //	race       [race-detector build, mode=race] the same programs unstamped;
 //	           race reports become Race events (race.go)
 //	racepair   [race-detector build] two goroutines hammering one pair of
-//	           public methods each (args pairs=Type:a:b+...): the runner asks
-//	           for the pairs TLC predicted to race on the extracted table
+//	           public methods each (args pairs=Type:a:b+...) through hot keys,
+//	           fresh keys (growth) and a bound in force (eviction): the runner
+//	           asks for the pairs TLC predicted to race on the extracted table
 //
 // The harness only records; TLC judges.
 package c10
@@ -23,8 +28,10 @@ import (
 	"os"
 	"path/filepath"
 	"sort"
+	"strconv"
 	"strings"
 	"sync"
+	"sync/atomic"
 	"syscall"
 	"time"
 
@@ -70,6 +77,12 @@ func Run(c *core.Ctx) error {
 	for tn := range ctors { // a type that lost its (recognisable) lock field would silently leave the model
 		if tab.Types[tn] == nil {
 			return fmt.Errorf("collection type %s is not in the extracted table: no field of type sync.Mutex / *sync.Cond found in it", tn)
+		}
+	}
+	directedOps = nil
+	for _, n := range strings.Split(c.Args["ops"], "+") {
+		if n != "" {
+			directedOps = append(directedOps, n)
 		}
 	}
 	switch c.Args["mode"] {
@@ -124,6 +137,9 @@ const caseStride = 100000
 
 // histories per collection source: stamped (TLC validates ~30 000 events/s) / under the race detector
 func cases(c *core.Ctx, gen string) int {
+	if n, err := strconv.Atoi(c.Args["cases"]); err == nil && n > 0 { // directed effort (args types=A+B,cases=n)
+		return n
+	}
 	if gen == "race" {
 		return c.Pick(40, 800)
 	}
@@ -133,7 +149,16 @@ func cases(c *core.Ctx, gen string) int {
 // history (source si, number n) -> case id; the pool is shared by 8 consecutive cases
 func forEachCase(c *core.Ctx, gen string, f func(cas int, src source, fresh func() *cobj, prog *program)) {
 	srcs := sources()
+	only := map[string]bool{}
+	for _, tn := range strings.Split(c.Args["types"], "+") {
+		if tn != "" {
+			only[tn] = true
+		}
+	}
 	for si, src := range srcs {
+		if len(only) > 0 && !only[src.Type] {
+			continue
+		}
 		for n := 0; n < cases(c, gen); n++ {
 			cas := si*caseStride + n
 			if !c.Want(gen, cas) {
@@ -162,11 +187,11 @@ func nontrivial(p *program) bool {
 }
 
 func progKey(co *cobj, p *program) string {
-	return fmt.Sprintf("%s|%s|%d|%v|%v", co.Type, co.Ctor, p.Max, p.Prefix, p.Threads)
+	return fmt.Sprintf("%s|%s|%d|%d|%v|%v|%v", co.Type, co.Ctor, p.Max, p.Procs, p.Step, p.Prefix, p.Threads)
 }
 
 func resetHdr(co *cobj, p *program) core.Ev {
-	h := core.Ev{"t": co.Type, "ctor": co.Ctor, "nondet": true, "max": p.Max}
+	h := core.Ev{"t": co.Type, "ctor": co.Ctor, "nondet": true, "max": p.Max, "shape": p.Shape, "procs": p.Procs, "step": p.Step}
 	for k, v := range co.Hdr {
 		h[k] = v
 	}
@@ -189,8 +214,8 @@ func runSelf(c *core.Ctx, t *core.Trace) {
 		}
 	}
 	co := src.New(c.Rng("pool", 0), 0)()
-	prog := &program{Prefix: []pop{{"Put", 1, 1}, {"Put", 1, 2}, {"Size", 1, 0}, {"Get", 1, 0}, {"Put", 2, 3}},
-		Threads: [][]pop{{{"Size", 1, 0}, {"Get", 2, 0}}, {{"ContainsKey", 1, 0}, {"IsEmpty", 1, 0}}}}
+	prog := &program{Prefix: []pop{{Name: "Put", K: 1, V: 1}, {Name: "Put", K: 1, V: 2}, {Name: "Size", K: 1, V: 0}, {Name: "Get", K: 1, V: 0}, {Name: "Put", K: 2, V: 3}},
+		Threads: [][]pop{{{Name: "Size", K: 1, V: 0}, {Name: "Get", K: 2, V: 0}}, {{Name: "ContainsKey", K: 1, V: 0}, {Name: "IsEmpty", K: 1, V: 0}}}}
 	t.Reset(gen, 0, resetHdr(co, prog))
 	log, _, _ := runProgram(co, prog, true, c.Rng("yield", 0))
 	for _, e := range log {
@@ -212,44 +237,69 @@ func runLin(c *core.Ctx) error {
 	}
 	traces := map[int]*core.Trace{0: t0}
 	overlap := 0
+	shapes := map[string]int{}
+	hung := map[int]int{} // histories that never came back, per collection type
 	forEachCase(c, gen, func(cas int, src source, fresh func() *cobj, prog *program) {
 		co := fresh()
 		if !co.Lin {
 			return
 		}
+		if hung[cas/caseStride] >= 2 { // the hang is on record; each further one would only add a watchdog period
+			return
+		}
+		shapes[prog.Shape]++
 		grp := cas / caseStride / 5 // five collection types per trace file
 		t := traces[grp]
 		if t == nil {
 			t = c.Trace(fmt.Sprintf("lin%d", grp), "Trace_Linearize")
 			traces[grp] = t
 		}
-		t.Reset(gen, cas, resetHdr(co, prog))
-		log, _, finished := runProgram(co, prog, true, c.Rng("yield", cas))
-		open, ov := map[int]bool{}, false
-		for _, e := range log {
-			switch e["ev"] {
-			case "Inv":
-				if len(open) > 0 {
-					ov = true
-				}
-				open[e["p"].(int)] = true
-			case "Ret":
-				delete(open, e["p"].(int))
+		// one execution per history; when a single history is re-run (triage, replay) the same
+		// program is executed many times on fresh instances, every execution a history of its
+		// own: which interleaving an execution meets is not in the harness's hands, and TLC
+		// judges them all
+		rounds := 1
+		if c.OnlyGen == gen && c.OnlyCase >= 0 {
+			rounds = 60
+		}
+		var log []core.Ev
+		for round := 0; round < rounds; round++ {
+			if round > 0 {
+				co = fresh()
 			}
-			t.Emit(e)
-		}
-		if ov {
-			overlap++
-		}
-		if !finished {
-			t.Emit(core.Ev{"ev": "Timeout", "after": historyWatchdog.String()})
-		} else if len(open) == 0 {
-			var fin core.Ev
-			if msg := core.Guard(func() { fin = co.Final() }); msg != "" {
-				t.Emit(core.Ev{"ev": "Panic", "p": 0, "o": "Final", "msg": msg})
-			} else {
-				fin["ev"] = "Final"
-				t.Emit(fin)
+			hdr := resetHdr(co, prog)
+			hdr["round"] = round
+			t.Reset(gen, cas, hdr)
+			var finished bool
+			log, _, finished = runProgram(co, prog, true, c.Rng("yield", cas+round*7919*caseStride))
+			open, ov := map[int]bool{}, false
+			for _, e := range log {
+				switch e["ev"] {
+				case "Inv":
+					if len(open) > 0 {
+						ov = true
+					}
+					open[e["p"].(int)] = true
+				case "Ret":
+					delete(open, e["p"].(int))
+				}
+				t.Emit(e)
+			}
+			if ov {
+				overlap++
+			}
+			if !finished {
+				hung[cas/caseStride]++
+				t.Emit(core.Ev{"ev": "Timeout", "after": historyWatchdog.String()})
+				break
+			} else if len(open) == 0 {
+				var fin core.Ev
+				if msg := core.Guard(func() { fin = co.Final() }); msg != "" {
+					t.Emit(core.Ev{"ev": "Panic", "p": 0, "o": "Final", "msg": msg})
+				} else {
+					fin["ev"] = "Final"
+					t.Emit(fin)
+				}
 			}
 		}
 		c.Count(progKey(co, prog), nontrivial(prog))
@@ -258,6 +308,7 @@ func runLin(c *core.Ctx) error {
 		}
 	})
 	c.SetExtra("lin_histories_with_overlapping_calls", overlap)
+	c.SetExtra("lin_histories_by_shape", shapes)
 	return nil
 }
 
@@ -279,20 +330,20 @@ func runForced(c *core.Ctx, t *core.Trace) {
 		id := 0
 		for i := 0; i < capacity; i++ {
 			id++
-			prog.Prefix = append(prog.Prefix, pop{"QPut", id, 0})
+			prog.Prefix = append(prog.Prefix, pop{Name: "QPut", K: id, V: 0})
 		}
 		var a, b []pop
 		for i := 0; i < 6; i++ {
 			id++
-			a = append(a, pop{"QPutForce", id, 0})
-			b = append(b, pop{"Size", 0, 0})
+			a = append(a, pop{Name: "QPutForce", K: id, V: 0})
+			b = append(b, pop{Name: "Size", K: 0, V: 0})
 		}
 		prog.Threads = [][]pop{a, b}
 		if cas%2 == 1 {
 			var d []pop
 			for i := 0; i < 4; i++ {
 				id++
-				d = append(d, pop{"QPutForce", id, 0})
+				d = append(d, pop{Name: "QPutForce", K: id, V: 0})
 			}
 			prog.Threads = append(prog.Threads, d)
 		}
@@ -350,8 +401,9 @@ func runRaceHistories(c *core.Ctx, tab *Table) error {
 	}
 	var ferr error
 	races := 0
+	hung := map[int]int{}
 	forEachCase(c, gen, func(cas int, src source, fresh func() *cobj, prog *program) {
-		if ferr != nil {
+		if ferr != nil || hung[cas/caseStride] >= 2 {
 			return
 		}
 		co := fresh()
@@ -371,6 +423,7 @@ func runRaceHistories(c *core.Ctx, tab *Table) error {
 				t.Emit(e)
 			}
 			if !finished {
+				hung[cas/caseStride]++
 				t.Emit(core.Ev{"ev": "Timeout", "after": historyWatchdog.String()})
 			}
 			t.Emit(core.Ev{"ev": "Ran", "t": co.Type, "threads": len(prog.Threads), "calls": prog.calls(), "panics": panics, "round": round})
@@ -403,6 +456,7 @@ func runRacePairs(c *core.Ctx, tab *Table) error {
 		return fmt.Errorf("mode=race needs GORACE=log_path=...")
 	}
 	rl.next() // whatever the random histories left unread belongs to them
+	timeouts := 0
 	for cas, ps := range strings.Split(spec, "+") {
 		if !c.Want(gen, cas) {
 			continue
@@ -416,57 +470,105 @@ func runRacePairs(c *core.Ctx, tab *Table) error {
 		out, found := "returned", 0
 		for round := 0; round < 6 && found == 0 && out == "returned"; round++ {
 			var err error
-			if out, err = hammer(tn, a, b); err != nil {
+			if out, err = hammer(tn, a, b, round); err != nil {
 				return err
 			}
-			t.Emit(core.Ev{"ev": "Pair", "t": tn, "a": a, "b": b, "out": out, "round": round})
+			if out == "timeout" {
+				timeouts++
+			}
+			t.Emit(core.Ev{"ev": "Pair", "t": tn, "a": a, "b": b, "out": out, "round": round, "regime": round % 3})
 			if found, err = emitRaces(t, rl, tn); err != nil {
 				return err
 			}
 		}
 		t.Emit(core.Ev{"ev": "Done"})
 		c.Count("pair|"+ps, true)
+		if timeouts >= 4 { // hangs have been recorded; the remaining pairs would only add waiting
+			break
+		}
 	}
 	return nil
 }
 
-// hammer: two goroutines on one fresh populated instance, one calling a, the
-// other b, with nothing between them but the instance's own synchronisation.
-func hammer(tn, a, b string) (string, error) {
-	obj, err := newPopulated(tn)
-	if err != nil {
-		return "", err
-	}
-	reps := func(m string) int {
-		if blocksWhenEmpty(tn, m) {
-			return 2
+// hammer: two goroutines on one fresh instance, one calling a, the other b,
+// with nothing between them but the instance's own synchronisation.  A method
+// reaches its helper paths only in the right state and with the right keys, so
+// the rounds go through three regimes:
+//
+//	0  populated, hot keys 1..7 (hits, misses, updates)
+//	1  populated, 400 fresh keys in the same order on both sides: the table
+//	   grows through several thresholds (re-hash), the other side looks up /
+//	   removes what was just inserted
+//	2  bound in force and reached (SetMax / capacity 3), fresh and hot keys
+//	   alternating: eviction, refusal
+func hammer(tn, a, b string, regime int) (string, error) {
+	var obj interface{}
+	var err error
+	n, key := 60, func(i int) int { return 1 + i%(populated+2) }
+	switch regime % 3 {
+	case 1:
+		n, key = 400, func(i int) int { return populated + 1 + i }
+	case 2:
+		var ok bool
+		if obj, ok, err = newFull(tn); err != nil {
+			return "", err
+		} else if ok {
+			key = func(i int) int {
+				if i%2 == 0 {
+					return 100 + i
+				}
+				return 1 + i%(populated+2)
+			}
 		}
-		return 60
+	}
+	if obj == nil {
+		if obj, err = newPopulated(tn); err != nil {
+			return "", err
+		}
 	}
 	var wg sync.WaitGroup
 	start := make(chan struct{})
 	var pmu sync.Mutex
 	panicked := false
-	for _, m := range []string{a, b} {
-		calls := make([]func(), reps(m))
+	// A side that is through with its list goes through it again until the other side is through
+	// with its first pass too (at most 40 times): a reader must still be reading when the writer
+	// reaches the call that re-hashes or evicts, however late the scheduler starts the writer.
+	// The flags are written once, at the end of a first pass, and synchronise nothing before that.
+	var through [2]int32
+	for side, m := range []string{a, b} {
+		reps, k, passes := n, key, 40
+		if waitsWhenEmpty(tn, m) {
+			reps, k = 2, func(i int) int { return 1 + i }
+		}
+		if blocksWhenEmpty(tn, m) {
+			passes = 1
+		}
+		calls := make([]func(), reps)
 		for i := range calls {
-			if calls[i], err = caller(obj, tn, m, 1+i%(populated+2)); err != nil {
+			if calls[i], err = caller(obj, tn, m, k(i)); err != nil {
 				return "", err
 			}
 		}
 		wg.Add(1)
-		go func() {
+		go func(side int) {
 			defer wg.Done()
 			<-start
-			for _, call := range calls {
-				if msg := core.Guard(call); msg != "" {
-					pmu.Lock()
-					panicked = true
-					pmu.Unlock()
+			for pass := 0; pass < passes; pass++ {
+				for _, call := range calls {
+					if msg := core.Guard(call); msg != "" {
+						pmu.Lock()
+						panicked = true
+						pmu.Unlock()
+						atomic.StoreInt32(&through[side], 1)
+						return
+					}
+				}
+				atomic.StoreInt32(&through[side], 1)
+				if atomic.LoadInt32(&through[1-side]) == 1 {
 					return
 				}
 			}
-		}()
+		}(side)
 	}
 	close(start)
 	done := make(chan struct{})
